@@ -20,9 +20,13 @@ TEST_CMD = ["/venv/bin/python", "-m", "pytest", "-q", "-p", "no:cacheprovider", 
 SLOW = ["--ignore=buidl/test/test_musig.py", "--ignore=buidl/test/test_taproot.py"]
 
 
+SRC = os.environ.get("MUT_SRC", "/tmp/mutants")
+OUT = dict(zip("ab", os.environ.get("MUT_OUT", "ab")))
+
+
 def take(prop, x):
-    src = f"/tmp/mutants/{prop}"
-    sid = f"{prop}-{x}"
+    src = f"{SRC}/{prop}"
+    sid = f"{prop}-{OUT[x]}"
     out = {"id": sid}
     if not os.path.exists(f"{src}/{x}.diff"):
         out["error"] = "not delivered"
